@@ -1,5 +1,6 @@
 import NxModel.Nex.RmcClient
 import NxModel.Nex.SchemaDriver
+import NxModel.Nex.C14Wire
 /-!
 # C14 driver state: the schema interpreter (C13's line protocol) plus one RMC client call-matching machine
 
@@ -18,6 +19,8 @@ Line protocol (all other lines: `Nx.Schema.Drv.step`):
          done t keyerror | set t | warn id | closing t,.. | notready t | notask t   (`-` when empty);
   ` SPECDIFF` appended when the per-call specification machine (`CallSpec`, run in lock step) disagrees,
   ` H-IDS-BROKEN` once a fresh call id collided with the id of a call still outstanding.
+  conn <v0> <client minor> <server minor> <client hdr> <server hdr> -> ok <negotiated minor> <client hdr> <server hdr>
+                     (both ends of a real PRUDP connection, `NxModel/Nex/C14Wire.lean`)
 -/
 namespace Nx.C14Mux
 open Nx Nx.Rmc Nx.RmcClient
@@ -97,6 +100,8 @@ def step (st : St) (line : String) : St × String :=
   if line.startsWith "mux " then
     let (d, o) := stepMux st.mux ((line.splitOn " ").drop 1)
     ({ st with mux := d }, o)
+  else if line.startsWith "conn " then
+    (st, C14Wire.stepConn ((line.splitOn " ").drop 1))
   else
     let (e, o) := Schema.Drv.step st.env line
     ({ st with env := e }, o)
